@@ -234,6 +234,7 @@ def run_instance(args):
         ms_sym, ms_real = get_modsets(hmod, params, mutate)
         E = core.set_engine(core.Engine(timeout_ms=opts.get('timeout_ms', 20000),
                                         max_paths=opts.get('max_paths', 200000)))
+        E.deadline = time.time() + float(opts.get('budget_s', 600))
         E.allow_realise = bool(opts.get('allow_realise', False) or params.get('allow_realise', False))
         want_samples = opts.get('samples', 2)
         xval = opts.get('xval', True)
@@ -249,12 +250,12 @@ def run_instance(args):
                 with contextlib.redirect_stderr(io.StringIO()), contextlib.redirect_stdout(io.StringIO()):
                     hmod.body(ctx, params)
             except core.Unsupported as ex:
-                if E.aborted or E.inconclusive_flag:
+                if E.aborted or E.inconclusive_flag or E.truncated:
                     raise
                 unsupported.append(str(ex)[:200])
                 raise core.Inconclusive(str(ex))
             except Exception as ex:
-                if E.aborted or E.inconclusive_flag:
+                if E.aborted or E.inconclusive_flag or E.truncated:
                     raise
                 # the code under test raised on a feasible path: a violation candidate, confirmed by replay
                 tb = traceback.extract_tb(ex.__traceback__)
@@ -387,6 +388,7 @@ def run_check(hname, tier, seed, nproc=None, only=None, verbose=False):
         insts = [i for i in insts if only in i['name']]
     opts = dict(getattr(hmod, 'OPTS', {}))
     opts.update(getattr(hmod, 'OPTS_TIER', {}).get(tier, {}))
+    opts.setdefault('budget_s', 600 if tier == 'quick' else 5400)
     jobs = [(hname, p, [], opts) for p in insts]
     # self-tests (in-memory mutations of the source text; /repo is never touched)
     st_jobs = []
@@ -428,7 +430,7 @@ def run_check(hname, tier, seed, nproc=None, only=None, verbose=False):
         if r.get('error'):
             harness_errors.append(f"{r['name']}: {r['error']}")
         if r.get('truncated'):
-            harness_errors.append(f"{r['name']}: path budget exhausted")
+            harness_errors.append(f"{r['name']}: exploration truncated (path or wall-clock budget exhausted): incomplete, not a pass")
         if r.get('reached', 0) == 0 and not r.get('error'):
             harness_errors.append(f"{r['name']}: no path reached the assertion (vacuous)")
         if r.get('xval_mismatch'):
